@@ -13,7 +13,7 @@ POOL_NOTE = ("Thorough tier adds a coverage-guided libFuzzer leg (cargo-fuzz tar
 CHECKS = {
     "C02": dict(engine="poolsim", ref="§5 C02, §4 E1",
         technique="stateful property-based testing: generated operation histories (proptest) interpreted against the real pool with scripted collaborators; invariant checked at every hand-off",
-        text="No counterexample among the generated issue/poll/cancel/dial/handshake/release/ready/close/upgrade/background histories: at every hand-off of a non-multiplexed connection nobody else held it, it had reported ready since its previous use, and it had not been taken over by an upgrade; the model connection comes in two flavours (is_open() = open and ready, as the crate's HttpConnection, or = not closed, which the trait also allows). Exploration, not proof: histories up to 40 (quick) / 120 (thorough) operations, up to 16 requests.",
+        text="No counterexample among the generated issue/poll/cancel/dial/handshake/release/ready/close/upgrade/background histories: at every hand-off of a non-multiplexed connection nobody else held it, it had reported ready since its previous use, and it had not been taken over by an upgrade; the model connection comes in two flavours (is_open() = open and ready, as the crate's HttpConnection, or = not closed, which the trait also allows). An idle-list-pressure leg keeps one origin's idle list at max_idle 1-2 with peers closing idle connections while busy connections are released. Exploration, not proof: histories up to 40 (quick) / 120 (thorough) operations, up to 16 requests.",
         note=POOL_NOTE),
     "C03": dict(engine="poolsim", ref="§5 C03, §4 E1",
         technique="stateful property-based testing with fault-sequence generation (dial/handshake failures, cancels) plus deterministic drain and probe; history invariants: no request pending after drain, no progress without a wake-up",
@@ -25,11 +25,11 @@ CHECKS = {
         note=POOL_NOTE + " Rule preconditions are lower bounds (ambiguity can hide violations, never invent them); one documented exclusion for rule B (DESIGN §5 C04)."),
     "C05": dict(engine="poolsim", ref="§5 C05, §4 E1",
         technique="stateful property-based testing with peer-close faults injected at every stage; hand-off invariant against recorded close/entry steps; small real-time leg for idle expiry",
-        text="At every hand-off of a previously pooled connection its close step is compared with the request's issue step and the connection's last pool-entry step; two expiry legs (random histories and structured scenarios with several idle connections of different ages, one of them closed) sleep in real time on both sides of a 25 ms idle_timeout with one-sided assertions; a third leg uses whole-second timeouts (1 s / 2 s) with a 1.15 s sleep.",
+        text="At every hand-off of a previously pooled connection its close step is compared with the request's issue step and the connection's last pool-entry step; two expiry legs (random histories and structured scenarios with several idle connections of different ages, one of them closed) sleep in real time on both sides of a 25 ms idle_timeout with one-sided assertions; a third leg uses whole-second timeouts (1 s / 2 s) with a 1.15 s sleep. Expiry is monitored for multiplexed (HTTP/2) connections too: a clone may only be handed out while the connection's last use lies within idle_timeout; the idle-list-pressure leg (max_idle 1-2, peers closing idle connections) and idle_timeout = Duration::MAX are part of the configurations.",
         note=POOL_NOTE + " Idle expiry uses std::time::Instant: only coarse one-sided real-time assertions."),
     "C06": dict(engine="poolsim", ref="§5 C06, §4 E1",
-        technique="stateful property-based testing over an 18-entry origin table (scheme, port, host, letter case, near misses such as the other scheme's default port, IP literals) and over hundreds of synthetic origins; hand-off invariant on (scheme, host, effective port)",
-        text="At every hand-off the origin the connection was dialed for equals the origin of the request's URI, with waiters and idle connections alive for several origins at once; a near-miss leg draws 2-4 origins per case from the whole table (http://h:443 vs http://h, https://h:80 vs https://h, same explicit port under the other scheme, hosts extending one another, IPv4/IPv6 literals), with caller-supplied Host headers naming a shared virtual host on all or every second request; a many-origins leg first sweeps 40-700 distinct origins (so that key/token bookkeeping is exercised at scale) and then issues requests to early and late origins.",
+        technique="stateful property-based testing over a 25-entry origin table (scheme, port, host, letter case, near misses such as the other scheme's default port, IP literals) and over hundreds of synthetic origins; hand-off invariant on (scheme, host, effective port)",
+        text="At every hand-off the origin the connection was dialed for equals the origin of the request's URI, with waiters and idle connections alive for several origins at once; a near-miss leg draws 2-4 origins per case from the whole table (http://h:443 vs http://h, https://h:80 vs https://h, same explicit port under the other scheme, ws/wss/custom schemes, mixed letter case with explicit ports, hosts extending one another, IPv4/IPv6 literals), with caller-supplied Host headers naming a shared virtual host on all or every second request; a many-origins leg first sweeps 40-700 distinct origins (so that key/token bookkeeping is exercised at scale) and then issues requests to early and late origins.",
         note=POOL_NOTE),
     "C14": dict(engine="poolsim", ref="§5 C14, §4 E1",
         technique="stateful property-based testing; obligation tracking over generated schedules (release vs first poll vs background hand-back vs dial completion), both continue_after_preemption settings",
@@ -56,7 +56,7 @@ CHECKS.update({
     "C16": dict(engine="addrsort", ref="§5 C16, §4 E7",
         technique="exhaustive small-scope enumeration plus property-based testing against an independent specification (stable partition); end-to-end differential leg over loopback listeners",
         text="All IPv4/IPv6 family patterns up to length 8 (quick) / 12 (thorough) for the four local-binding combinations, exhaustively, plus random lists with duplicates: output is a permutation, first/second element and remainder order equal the specification, set_port applies to every address; through TcpTransport with a scripted resolver and local bindings (none, loopback, wildcard) the accepted peer is the first live address of the specified order.",
-        note="Trusted base: the hook wrappers call the crate-private routines unchanged; loopback networking for the end-to-end leg (refused connects are immediate compared with the >= 570 ms stagger)."),
+        note="Trusted base: the hook wrappers call the crate-private routines unchanged; loopback networking for the end-to-end leg (dead addresses are sockets held bound without listening: refused at once, immediate compared with the >= 570 ms stagger, and not bindable by anyone else meanwhile)."),
     "C20": dict(engine="sni+tlsstack", ref="§5 C20, §4 E10, §10.3",
         technique="grammar-based property testing of the public ValidateSNI layer against an independent reference predicate (two-directional: never forwarded on mismatch, never rejected on match)",
         text="Requests over all http::Version constants x Host header x URI authority x letter case x port x IPv4/IPv6 literals x server name (absent/equal/equal modulo case/different/near miss: one character more, fewer or replaced at either end) x TLS info, with names from a table and generated DNS-style names; forwarded/rejected outcome and the validated flag observed by a recording inner service must equal the reference predicate wherever the property constrains it. A full-stack leg (engine tlsstack) runs the real Server with with_tls_connection_info + with_tls + ValidateSNI against the real client stack (TlsTransport, HTTP/1 and HTTP/2, ALPN): the handler must run exactly when the request host equals the handshake SNI, and a mismatching Host header (HTTP/1) must be answered without the handler running.",
@@ -74,10 +74,10 @@ CHECKS.update({
     "C18": dict(engine="iomodel", ref="§5 C18, §4 E8",
         technique="model-based property testing: generated read/write/vectored-write/flush/shutdown programs over a scripted faulty inner stream and over connected stream pairs, compared with a reference FIFO",
         text="TokioIo in both directions and round trip, Rewind with arbitrary prefix, client/server Stream and TlsBraid::NoTls are driven over an inner stream that returns short transfers, Pending, errors and EOF at generated points; every outward result must match what the inner returned in that call and the delivered/accepted byte streams must equal the reference FIFO. The same programs run over in-process duplex pairs (deterministic) and real TCP/Unix pairs wrapped in Braid + Stream. A TLS pair leg drives the client Stream::tls (lazy handshake) against the server-side TlsStream over Braid through duplex pipes of 16 B-64 KiB in virtual time with scripted read-buffer sizes: the decrypted streams must equal the reference FIFO in both directions and end-of-stream must follow (only) a shutdown.",
-        note="Trusted base: wrapper adapters are pass-through (no buffering); real-socket legs use 2 s real-time guards whose expiry is inconclusive, never a violation; rustls/tokio-rustls record layer in the TLS pair leg (pipes below a record header stall in the TLS stack itself and are excluded)."),
+        note="In the TLS pair leg an end may also vanish abruptly (transport dropped without close_notify): the reader must then see an error, never a clean end of stream. Trusted base: wrapper adapters are pass-through (no buffering); real-socket legs use 2 s real-time guards whose expiry is inconclusive, never a violation; rustls/tokio-rustls record layer in the TLS pair leg (pipes below a record header stall in the TLS stack itself and are excluded)."),
     "C19": dict(engine="timeout+poolsim+netsim", ref="§5 C19, §4 E9/E1/E2",
         technique="property-based testing in virtual time: exhaustive grid plus random (duration, inner completion, first-poll delay) cases for the Timeout layer; stateful pool histories with virtual-time advances so deadlines fire at every stage of a pooled request",
-        text="Unit leg: result value, resolution instant (never later than the deadline), inner future dropped at resolution and never polled again. Pool leg: requests wrapped in the real Timeout inside poolsim histories; a request polled at or after its deadline must resolve, a timeout never fires early, no connection is handed to a request that already ended, and after the drain a probe to every origin is served. End-to-end leg: the real client stack with with_timeout against slow handlers in netsim (timeouts fire exactly at the deadline, completed requests are intact, a fresh client is served afterwards).",
+        text="Unit leg: result value, resolution instant (never later than the deadline), inner future dropped at resolution and never polled again; durations range from 0 to Duration::MAX (no panic, the inner result is delivered). Pool leg: requests wrapped in the real Timeout inside poolsim histories; a request polled at or after its deadline must resolve, a timeout never fires early, no connection is handed to a request that already ended, and after the drain a probe to every origin is served. End-to-end leg: the real client stack with with_timeout against slow handlers in netsim (timeouts fire exactly at the deadline, completed requests are intact, a fresh client is served afterwards).",
         note="Trusted base: tokio paused clock; poolsim collaborators (see C02). When the first poll happens after both the deadline and the inner completion either answer is accepted."),
 })
 
@@ -88,14 +88,14 @@ CHECKS.update({
         note="Trusted base: the http crate decides which requests are well-typed; hyper serialises the final http::Request (target compared via to_string and, in the wire leg, parsed from the captured bytes); for schemes without a default port either Host form is accepted."),
     "C17": dict(engine="reqgrammar+tlswire", ref="§5 C17, §4 E6/E5",
         technique="grammar-based robustness testing with a process-wide panic hook and catch_unwind: any panic located in the library (caller task or spawned task) is a violation; debug assertions on",
-        text="The C13 request grammar (every http::Version constant, standard/extension methods incl. CONNECT, absolute/origin/authority/asterisk forms, DNS/IPv4/bracketed IPv6/unusual hosts from tables and from the URI grammar (reg-names over unreserved, sub-delims and pct-encoded characters, bracketed literals with arbitrary URI characters incl. IPvFuture and [], very long labels and names), header sets, bodies) is sent through the check layers, ConnectionPoolService with and without pool, ConnectorService and the real connection builder; panics caught by the runtime in spawned tasks are observed through the hook.",
+        text="The C13 request grammar (every http::Version constant, standard/extension methods incl. CONNECT, absolute/origin/authority/asterisk forms, DNS/IPv4/bracketed IPv6/unusual hosts from tables and from the URI grammar (reg-names over unreserved, sub-delims and pct-encoded characters, bracketed literals with arbitrary URI characters incl. IPvFuture and [], very long labels and names), header sets, bodies) is sent through the check layers, ConnectionPoolService with and without pool, ConnectorService and the real connection builder; panics caught by the runtime in spawned tasks are observed through the hook. A pool leg runs the poolsim histories with failing connect / handshake attempts and boundary configurations (idle_timeout 0 and Duration::MAX, max_idle 0) and flags any panic located in the library as well as a connect or handshake future polled again after completion.",
         note="Trusted base: panic hook + location filter (/repo/); full-stack TLS/TCP legs live in the C12 engine (tlswire) and netsim."),
 })
 
 NET_NOTE = ("Trusted base: tokio current_thread scheduler with paused clock (schedules explored by timing perturbation: start "
             "times, handler delays, chunk gaps, transport connect delay and per-read latency, buffer sizes 1 B-64 KiB); hyper/h2 as "
             "HTTP engines on both sides; the duplex transport stands for the network. HTTP/2 is combined only with pipes >= 128 B "
-            "(h2's own handshake deadlocks on smaller ones) and GET bodies carry exact size hints (hyper does not chunk GET bodies).")
+            "(h2's own handshake deadlocks on smaller ones) and with pipes that hold at least the smaller direction's total traffic (h2 writes an owed control frame before it reads: with both directions full two ends owing SETTINGS ACK / GOAWAY stall each other, DESIGN 10.4) and GET bodies carry exact size hints (hyper does not chunk GET bodies).")
 
 CHECKS.update({
     "C01": dict(engine="netsim+poolsim+tcpe2e", ref="§5 C01, §4 E2/E1",
@@ -109,7 +109,7 @@ CHECKS.update({
     "C09": dict(engine="netsim+socksrv+tlsstack", ref="§5 C09, §4 E2, §10.3",
         technique="fault-sequence generation in virtual time: per-connection faults (cancelled connect, disconnects, garbage, truncated head/body, mid-response disconnect, partial preface, clients asking for a 0- or 1-byte pipe, handler errors) interleaved with well-behaved requests; oracle = serving futures still pending, probe client served, other requests correct",
         text="After 1-5 generated faults per case the serving future of every server must still be pending, a fresh well-behaved probe client must be served by every server, and every well-behaved request on other connections must have completed with its correct response.",
-        note=NET_NOTE + " A real-socket leg (engine socksrv) repeats the fault/probe scheme on TCP and Unix acceptors in real time (reset or close before accept, garbage, truncated head/body, Unix clients bound to plain and non-UTF-8 pathnames); a probe that merely times out there is inconclusive. A TLS-listener leg (engine tlsstack) injects plaintext, garbage, truncated-ClientHello, immediate-close and wrong-SNI clients at a real Server with with_tls and then requires a well-behaved TLS probe to be served and the serving future still pending. OS-level accept() errors are not reachable."),
+        note=NET_NOTE + " A real-socket leg (engine socksrv) repeats the fault/probe scheme on TCP and Unix acceptors in real time (reset or close before accept, garbage, truncated head/body, Unix clients bound to plain and non-UTF-8 pathnames); a probe that merely times out there is inconclusive. A TLS-listener leg (engine tlsstack) injects plaintext, garbage, truncated-ClientHello, immediate-close and wrong-SNI clients at a real Server with with_tls and then requires a well-behaved TLS probe to be served and the serving future still pending. A capped make-service leg (engine makeready) gives the Server a make-service that admits a bounded number of live connections: call() without a preceding Ready from poll_ready is a violation, and a stalled client must not keep later clients from being served once a slot frees up. OS-level accept() errors are not reachable."),
 })
 
 NOT_YET = {
@@ -131,7 +131,7 @@ NOT_YET = {
 CHECKS.update({
     "C12": dict(engine="tlswire+tlsstack", ref="§5 C12, §4 E5, §10.3",
         technique="property-based testing with fault injection at the TLS peer: generated (scheme, host form, port, peer behaviour, ALPN, client TLS) combinations through the real TlsTransport with the client's wire recorded; oracle = TLS record framing of every byte, absence of a secret token, outcome vs certificate validity, SNI seen by the peer",
-        text="For https/wss with a client TLS configuration every byte put on the wire must parse as TLS records and never contain the application secret; a stream is only returned after a handshake with a peer whose (fixture) certificate is valid for the URI host and the SNI offered equals that host; mismatching, untrusted, plaintext, closing, truncating and silent peers yield an error or nothing, never a stream; other schemes pass bytes verbatim; no syntactically valid host panics. The full-stack leg (engine tlsstack) runs the whole client (pool, connector, TlsTransport, HTTP/1 and HTTP/2) against a real TLS Server: request secrets in path/header/body never appear in the recorded client bytes, every byte is TLS-framed, and the server's certificate resolver sees SNI = URI host; the client is built with the TLS setting made before or after the builder calls that rebuild it.",
+        text="For https/wss with a client TLS configuration every byte put on the wire must parse as TLS records and never contain the application secret; a stream is only returned after a handshake with a peer whose (fixture) certificate is valid for the URI host and the SNI offered equals that host; mismatching, untrusted, plaintext, closing, truncating and silent peers yield an error or nothing, never a stream; other schemes pass bytes verbatim; no syntactically valid host panics. The full-stack leg (engine tlsstack) runs the whole client (pool, connector, TlsTransport, HTTP/1 and HTTP/2) against a real TLS Server: request secrets in path/header/body never appear in the recorded client bytes, every byte is TLS-framed, and the server's certificate resolver sees SNI = URI host; the client is built with the TLS setting made before or after the builder calls that rebuild it. Request sequences mix schemes (http, https, ws, wss) to one authority through one pooled client, against the TLS server and a plaintext twin behind the same transport: a secure-scheme request must arrive through TLS, a plain one must not be wrapped.",
         note="Trusted base: rustls on both ends, the committed 100-year fixture certificates and the system clock inside their validity; ALPN offers without overlap are accepted either way."),
 })
 NOT_YET = {}
